@@ -650,6 +650,7 @@ pub fn check_c01(tier: &str) -> i32 {
         rep.require_class(c);
     }
     rep.assumptions.push("byte-count fields of write-multiple requests are not validated (the property constrains length)".into());
+    rep.assumptions.push("replies over real TCP / TLS sockets are checked on the back-pressure scenarios only (4 cases); everything else runs on the production session over the scripted transport".into());
     rep.assumptions.push("the reference server reads the requested addresses in ascending order: a read touching several failing addresses reports the exception of the lowest one".into());
     rep.finish()
 }
